@@ -172,6 +172,10 @@ def cases(chk):
         for part in (None, "4915200002@s.whatsapp.net", "4915200003@s.whatsapp.net"):
             for et in ("pkmsg", "msg", "skmsg"):
                 yield "author", {"chat": chat, "participant": part, "enc": et}
+    # two numbers presenting one identity key (stream 'samekey', on the real manager and store)
+    for order in SAMEKEY_ORDERS:
+        for how in ("bundle", "message"):
+            yield "samekey", {"order": order, "how": how}
     for c in corpus:
         yield "history", c
     # transient storage faults (another process holds the store's lock): the n-th statement of the observer's store fails once, right when a
@@ -226,14 +230,138 @@ def cases(chk):
         yield "history", {"auto": r2.random() < 0.5, "contacts": nc, "events": evs, "flavour": r2.choice([0, 0, 1, 2, 3])}
 
 
+SAMEKEY_ORDERS = [["a", "b", "a2"], ["b", "a", "a2"], ["a", "b", "c", "a2"], ["a", "b", "b2", "a2"], ["a", "a2x", "b", "a2"], ["a", "b", "restart", "a2"], ["a", "b", "a2", "restart", "a2"]]
+
+
+def run_samekey(chk, case):
+    """Two (or three) numbers presenting the SAME identity key (one installation that moved to a new number, a second SIM): recording the key
+    under one number must not touch what is remembered for another.  On the real manager and store, through the factory the library uses; the
+    peers are python-axolotl in-memory stores.  Steps: `a` / `b` / `c` = that number presents the shared installation's key (bundle or first
+    message); `a2` = number a presents a DIFFERENT identity (must be refused, automatic trust off, and a's pin must stay); `a2x` = the same, expected
+    to be refused, before b appears; `b2` = number b changes its identity with automatic trust ON (accepted: b's pin changes, a's must not)."""
+    import uuid
+    from axolotl.identitykey import IdentityKey
+    from axolotl.sessionbuilder import SessionBuilder
+    from axolotl.sessioncipher import SessionCipher
+    from axolotl.state.prekeybundle import PreKeyBundle
+    from axolotl.tests.inmemoryaxolotlstore import InMemoryAxolotlStore
+    from axolotl.util.keyhelper import KeyHelper
+    from yowsup.axolotl import exceptions
+    from yowsup.axolotl.factory import AxolotlManagerFactory
+    from axolotl.untrustedidentityexception import UntrustedIdentityException as _LibUntrusted
+    UNTRUSTED = (exceptions.UntrustedIdentityException, _LibUntrusted)
+    fails = []
+    tag = uuid.uuid4().hex[:8]
+    prof, me = "c17sk-" + tag, "49170%07d" % (int(tag, 16) % 10 ** 7)
+    mgr = AxolotlManagerFactory().get_manager(prof, me)
+    numbers = {"a": "4917111", "b": "4917222", "c": "4917333"}
+
+    class Peer(object):
+        def __init__(self):
+            self.store = InMemoryAxolotlStore()
+            self.n = 0
+
+        def identity(self):
+            return bytes(self.store.getIdentityKeyPair().getPublicKey().serialize())
+
+        def bundle(self):
+            self.n += 1
+            pk = KeyHelper.generatePreKeys(self.n * 10, 1)[0]
+            spk = KeyHelper.generateSignedPreKey(self.store.getIdentityKeyPair(), self.n)
+            self.store.storePreKey(pk.getId(), pk)
+            self.store.storeSignedPreKey(spk.getId(), spk)
+            return PreKeyBundle(self.store.getLocalRegistrationId(), 1, pk.getId(), pk.getKeyPair().getPublicKey(), spk.getId(),
+                                spk.getKeyPair().getPublicKey(), spk.getSignature(), self.store.getIdentityKeyPair().getPublicKey())
+
+    shared, other, other_b = Peer(), Peer(), Peer()
+    how = case["how"]
+
+    def pin(num):
+        k = mgr._store.getIdentity(num) if hasattr(mgr._store, "getIdentity") else None
+        if k is None:
+            import sqlite3
+            from yowsup.common.tools import StorageTools
+            c = sqlite3.connect(StorageTools.constructPath(prof, "axolotl.db"))
+            try:
+                r = c.execute("SELECT public_key FROM identities WHERE recipient_id = ?", (int(num),)).fetchone()
+            finally:
+                c.close()
+            return None if r is None else bytes(r[0])
+        return bytes(k.getPublicKey().serialize())
+
+    def norm(b):
+        return None if b is None else bytes(b)[-32:]
+
+    def present(num, peer, auto):
+        """the number presents the peer's identity: as a key bundle, or as a first message built from the observer's own bundle"""
+        if how == "bundle":
+            mgr.create_session(num, peer.bundle(), autotrust=auto)
+        else:
+            ob = mgr  # the observer's own bundle: a one-time key, the signed prekey, the identity
+            pks = ob._store.loadPreKeys()
+            if not pks:
+                import contextlib
+                import io
+                with contextlib.redirect_stdout(io.StringIO()), contextlib.redirect_stderr(io.StringIO()):
+                    ob.level_prekeys(force=True)
+                pks = ob._store.loadPreKeys()
+            pk = pks[0]
+            spk = ob.load_latest_signed_prekey(generate=True)
+            b = PreKeyBundle(ob.registration_id, 1, pk.getId(), pk.getKeyPair().getPublicKey(), spk.getId(), spk.getKeyPair().getPublicKey(),
+                             spk.getSignature(), ob.identity.getPublicKey())
+            st = peer.store
+            SessionBuilder(st, st, st, st, me + ":" + num, 1).processPreKeyBundle(b)
+            msg = SessionCipher(st, st, st, st, me + ":" + num, 1).encrypt(b"hi" + b"\x01")
+            try:
+                mgr.decrypt_pkmsg(num, msg.serialize(), True)
+            except UNTRUSTED:
+                if not auto:
+                    raise exceptions.UntrustedIdentityException(num, None)
+                mgr.trust_identity(num, peer.store.getIdentityKeyPair().getPublicKey())
+                mgr.decrypt_pkmsg(num, msg.serialize(), True)
+
+    expect = {}          # number -> identity (last 32 bytes) that must be remembered
+    chk.hit("samekey:" + how, "order:" + "-".join(case["order"]))
+    try:
+        for i, step in enumerate(case["order"]):
+            if step == "restart":
+                mgr = AxolotlManagerFactory().get_manager(prof, me)
+            elif step in ("a", "b", "c"):
+                present(numbers[step], shared, False)
+                expect[numbers[step]] = norm(shared.identity())
+            elif step in ("a2", "a2x"):
+                try:
+                    present(numbers["a"], other, False)
+                    fails.append(oracle("C17:changed-identity-accepted:same-key-elsewhere", "steps %s (%s): number a presents a different identity with automatic trust off "
+                                        "at step #%d and is accepted (its remembered identity was %s)" % (case["order"], how, i, "gone" if pin(numbers["a"]) is None or norm(pin(numbers["a"])) != expect.get(numbers["a"]) else "replaced")))
+                    break
+                except UNTRUSTED:
+                    pass
+            elif step == "b2":
+                present(numbers["b"], other_b, True)
+                expect[numbers["b"]] = norm(other_b.identity())
+            for num, want in sorted(expect.items()):
+                got = norm(pin(num))
+                if got != want:
+                    fails.append(oracle("C17:pin-changed-by-another-contact", "steps %s (%s): after step #%d (%s) the identity remembered for %s is %s, it was %s"
+                                        % (case["order"], how, i, step, num, "gone" if got is None else "a different key", "the shared installation's key" if want == norm(shared.identity()) else "its own new key")))
+                    return fails
+    except Exception as e:
+        import traceback
+        fails.append(oracle("C17:samekey-raises:" + type(e).__name__, "steps %s (%s): %s" % (case["order"], how, traceback.format_exc().strip().splitlines()[-1][:200])))
+    return fails
+
+
 def nontrivial(stream, case):
+    if stream == "samekey":
+        return (stream, repr(case))
     if stream == "author":
         return (stream, repr(case))
     return (case["auto"], case["contacts"], tuple(tuple(e) for e in case["events"]), case.get("flavour", 0))
 
 
 def shrink(stream, case):
-    if stream == "author":
+    if stream in ("author", "samekey"):
         return
     evs = case["events"]
     for i in range(len(evs)):
@@ -357,6 +485,8 @@ def run_author(chk, case):
 def run_case(chk, stream, case):
     if stream == "author":
         return run_author(chk, case)
+    if stream == "samekey":
+        return run_samekey(chk, case)
     from yowsup.layers.protocol_messages.protocolentities import TextMessageProtocolEntity
     fails = []
     d = chk.driver
